@@ -48,6 +48,9 @@ pub struct Case {
     /// (namespace slot, author slots)
     #[serde(default)]
     pub raw: Option<(u8, Vec<u8>)>,
+    /// operations on other parts of the store: (before query number, operation)
+    #[serde(default)]
+    pub noise: Vec<(u16, Noise)>,
 }
 
 /// Synthetic ids at byte-order boundaries (used for namespaces and authors alike).
@@ -386,8 +389,9 @@ impl Prop for C05 {
     fn strategy(tier: Tier) -> BoxedStrategy<Case> {
         let nq = tier.pick(40, 60);
         let raw = prop::option::weighted(0.2, (0u8..8, vec(0u8..8, 1..=3)));
-        (prop::bool::weighted(0.1), pools(8), vec(egen(), 0..=16), vec(qgen(), 1..=nq), raw)
-            .prop_map(|(file, pools, entries, queries, raw)| Case { file, pools, entries, queries, raw })
+        let noise = prop_oneof![1 => Just(vec![]), 1 => vec((any::<u16>(), crate::gen::noise()), 1..=8)];
+        (prop::bool::weighted(0.1), pools(8), vec(egen(), 0..=16), vec(qgen(), 1..=nq), raw, noise)
+            .prop_map(|(file, pools, entries, queries, raw, noise)| Case { file, pools, entries, queries, raw, noise })
             .boxed()
     }
 
@@ -442,7 +446,24 @@ impl Prop for C05 {
                 st = st.reopen()?;
                 o.class("file+reopen");
             }
-            for q in &c.queries {
+            let mut noise_state = NoiseState::default();
+            let noisy = !c.noise.is_empty() && ns != noise_namespace().id();
+            if noisy {
+                o.class("noise-on-other-parts-of-the-store-between-queries");
+            }
+            for (qi, q) in c.queries.iter().enumerate() {
+                if noisy {
+                    for (at, nz) in &c.noise {
+                        if crate::engine::idx(*at, c.queries.len()) == qi {
+                            if let Err(e) = apply_noise(&ctx.rt, &mut st.store, nz, &mut noise_state) {
+                                o.fail("C05/noise", format!("{:?}: {e}", nz));
+                            }
+                        }
+                    }
+                    if o.failed() {
+                        break;
+                    }
+                }
                 let r = resolve_with(q, &authors, &keys, raw);
                 o.class(if r.latest { "q/latest-per-key" } else if r.by_key { "q/flat-by-key" } else { "q/flat-by-author" });
                 if let KeyFilter::Prefix(p) = &r.keyf {
